@@ -20,6 +20,10 @@ CLAIMS = {
   text="The authorisation guarantee is decided as structure on every path: who may register a route and with which wrapper chain; in authenticate, inner handler only as admin when auth is off or with a user returned without error, never after an error response; authorize* dominance; the method→privilege table; the resource expression checked; AuthorizeAction's cleaned-key provenance, nearest-grant-decides and refusal of non-absolute resources; the write path's check on the very database written; the mux's redirect of non-canonical paths; injectivity of DatabaseResource (violated: known finding F17).",
   ref="§3 C20", technique="who-may-call + provenance keys of the registered handler, path-sensitive guard/effect tables (dominance of the check over the use), switch-table agreement, syntactic def-use provenance of lookup keys, injectivity lint",
   note="Trusted: path.Clean/Dir, strings.TrimPrefix, bcrypt/JWT libraries, httprouter-free own mux matching (pathMatch) beyond the redirect rule. Quick tier loads services/httpd+auth only; the who-may-call rule covers every module package in the thorough tier."),
+ "C06": dict(
+  text="Group independence decided as structure: node-level stateful expressions are used only through CopyReset() (violated by AlertNode: known finding F13), CopyReset hands out fresh function state, the grouped consumer keeps exactly one receiver per looked-up id and dispatches each message to its own group's receiver, the group id covers name-iff-by-name and every dimension's name and value and must be injective (violated: known finding F14), Dimensions.Equal compares every field, node-level caches are guarded by their key, NewGroup returns fresh receivers.",
+  ref="§3 C06", technique="type-directed use-site confinement of expression fields, path-sensitive guard/effect tables, field-completeness of the comparator guarding a cache, key-injectivity lint",
+  note="Trusted: go/types. Not decided: the two-run relation itself (same output with/without other groups), computeTagNames, write confinement of arbitrary stores through the back-pointer to the node."),
 }
 
 _pending = "check not built yet in this round (see DESIGN.md §3 for the planned structural rules); will move to `checks` once armed and exact on the tree"
